@@ -961,7 +961,7 @@ pub fn run(args: &Args, prop: &str) -> Report {
                                 continue;
                             }
                             let mut seq = vec![*a];
-                            if ex.rep.shard == (idx % ex.rep.nshards as u64) as usize && b == &alphabet[0] {
+                            if b == &alphabet[0] {
                                 // the length-1 prefix is evaluated once (with the first choice of b)
                                 ex.run_seq(*g, rpr, start, &seq);
                             }
@@ -1006,7 +1006,7 @@ pub fn run(args: &Args, prop: &str) -> Report {
         }
     }
     // scripted scenario: the full table
-    if rep.shard == 0 {
+    if rep.mine0((1 << 62) + 2) {
         full_table(&mut rep, prop);
     }
     rep.set("depth", json!(depth));
